@@ -47,7 +47,8 @@ MANIFEST = dict(
           "cannot be attached are never sent), error answers of the target (every status: received exactly once, the sample carries the answer), the "
           "JSON->protobuf mapping as a TLA+ function (GrpcJson.tla) over 363 generated payload cases shot as grpc/json and as scenario calls at a "
           "reflection-only service with nested / repeated / map / enum / bytes / oneof / well-known-type fields, TLS on/off and reflect_metadata / "
-          "authority in the connection part. Values are compared as (prefix, token) pairs; only non-default values (proto3 cannot tell a default from an absent field). Received metadata "
+          "authority in the connection part, LONG entries (a field / metadata value of more than 4 KiB in every file, a field of more than 64 KiB in "
+          "the files read with maxammosize raised; compared whole through a length + SHA-256 projection). Values are compared as (prefix, token) pairs; only non-default values (proto3 cannot tell a default from an absent field). Received metadata "
           "is checked to contain the entry's metadata (transport entries removed). 'Within the configured timeout' is decided as 'per call' by one "
           "run with a 1 s timeout and 1.2 s of think time between three fast calls (exit 2 if the machine was too slow to judge); all other runs use 120 s. "
           "reflect_port runs serve reflection from a second server that also implements the service: calls must arrive at the target only. A scenario stops at its first failed step, as the gun does. Trusted: renderers/projections in "
@@ -313,6 +314,10 @@ C20_CORRUPTIONS = [
     ("a call arrives with a metadata entry of an earlier step",
      lambda run: run[0].get("kind") == "scn",
      lambda rows: _leak_md(rows)),
+    ("a long value arrives with a piece missing",
+     lambda run: run[0].get("kind") == "json",
+     lambda rows: _alter_first(rows, lambda r_: r_["ev"] == "Recv" and any("#len=" in f["pre"] for f in r_["fields"]),
+                               lambda r_: [f.__setitem__("pre", f["pre"].replace("#len=", "#len=1")) for f in r_["fields"] if "#len=" in f["pre"]])),
     ("one entry never shot",
      lambda run: run[0].get("kind") == "json" and run[0].get("inst") == 1,
      lambda rows: _drop_entry(rows)),
@@ -385,7 +390,7 @@ def drive(b, doc, d, name="cases"):
 # ---------------------------------------------------------------------------------- connection / life-cycle part
 
 WIRE_NEG = ["inplace", "abortonbad", "dropmd", "shareddialsreflect", "scenariodeadline", "dirtyafterfail", "leakmd", "keepdefaults", "lastwins",
-            "retryunavailable"]
+            "retryunavailable", "choplong"]
 CONN_NEG = ["dialpershot", "poolignored", "ignorewarmfail", "dieonfailure", "plainalways", "reflmddropped"]
 
 
